@@ -30,7 +30,7 @@ UNITS = {
         widths=[16, 8],
         prelude='preludes/ctrl.rs',
         specs='contracts/ctrl.vspec',
-        lemmas=['lemmas/ctrl_lemmas.rs'],
+        lemmas=['lemmas/ctrl_lemmas.rs', 'lemmas/mask_lemmas.rs'],
         extra='ctrl_rules',
         items=[
             I(TAG, r'^impl Tag$', 'is_full', impl='Tag'),
@@ -49,13 +49,15 @@ UNITS = {
             I(RAW, r'^impl RawTableInner$', 'replace_ctrl_hash', impl='RawTableInner'),
             I(RAW, r'^impl RawTableInner$', 'record_item_insert_at', impl='RawTableInner'),
             I(RAW, r'^impl RawTableInner$', 'erase', impl='RawTableInner'),
+            I(RAW, r'^impl RawTableInner$', 'find_insert_slot_in_group', impl='RawTableInner'),
+            I(RAW, r'^impl RawTableInner$', 'fix_insert_slot', impl='RawTableInner'),
         ],
     ),
     'arith': dict(
         widths=[16, 8],
         prelude='preludes/arith.rs',
         specs='contracts/arith.vspec',
-        lemmas=['lemmas/arith_lemmas.rs', 'lemmas/probe_lemmas.rs'],
+        lemmas=['lemmas/arith_lemmas.rs', 'lemmas/mask_lemmas.rs', 'lemmas/probe_lemmas.rs'],
         items=[
             I(RAW, None, 'h1'),
             I(RAW, r'^impl ProbeSeq$', 'move_next', impl='ProbeSeq'),
